@@ -44,6 +44,10 @@ def cases(tier, seed):
         for L in range(0, 10):
             out.append({"part": "int-bytes", "type": name, "L": L, "full": tier == "thorough" or L <= 6})
     out.append({"part": "bool"})
+    # two threads use the codec of the same type at once (the codec objects are module-level singletons): every schedule
+    # with <= P preemptions at line / after-call granularity inside the objectdictionary package
+    for name in ("UNSIGNED24", "INTEGER24", "INTEGER40", "UNSIGNED56", "INTEGER64", "UNSIGNED16", "REAL32"):
+        out.append({"part": "threads", "type": name, "P": 1 if tier == "quick" else 2})
     # operation sequences on ONE variable object (and on the module-level codec objects behind it): every
     # (first type, second type) pair, every sequence of <=2 earlier operations before each judged operation
     hist_types = list(codec.INT_TYPES) + ["BOOLEAN", "REAL32", "REAL64"]
@@ -179,8 +183,66 @@ def _history(case, st):
     st.sample({"history": [t1, t2], "sequences": len(seqs)})
 
 
+def run_threads(case, st):
+    import os
+    import canopen
+    from mc import simenv, vsched
+    name = case["type"]
+    root = os.path.join(os.path.dirname(os.path.abspath(canopen.__file__)), "objectdictionary")
+    size = (4 if name == "REAL32" else codec.int_info(name)[0] // 8) if name != "REAL32" else 4
+    pa = bytes([0x56, 0x34, 0x12, 0x01, 0x02, 0x03, 0x04, 0x05][:size])
+    pb = bytes([0xFE, 0xFF, 0xFF, 0xFF, 0xFF, 0xFF, 0xFF, 0xFF][:size])
+    if name == "REAL32":
+        pa, pb = struct.pack("<f", 1.5), struct.pack("<f", -2.5)
+
+    def ref(b):
+        if name == "REAL32":
+            return struct.unpack("<f", b)[0]
+        return int.from_bytes(b, "little", signed=codec.int_info(name)[1])
+
+    def harness(s):
+        va, vb = _var(name), _var(name)
+
+        def work(v, pat):
+            def body():
+                out = []
+                for _ in range(2):
+                    out.append(v.decode_raw(pat))
+                    out.append(v.encode_raw(ref(pat)))
+                return out
+            return body
+        ta = s.spawn(work(va, pa), "a")
+        tb = s.spawn(work(vb, pb), "b")
+        return lambda: ([t.res if t.exc is None else ("EXC", repr(t.exc)[:80]) for t in (ta, tb)], s.deadlock)
+
+    def on_exec(s, out):
+        res, deadlock = out
+        st.evaluations += 1
+        st.traces += 1
+        st.transitions += len(s.trace)
+        if s.pre:
+            st.nontrivial_n += 1
+        rc = dict(case, schedule=[t[1] for t in s.trace])
+        for r, pat in zip(res, (pa, pb)):
+            want = [ref(pat), pat, ref(pat), pat]
+            if r != want:
+                st.violation(f"C04:threads:{name}:{'exception' if r and r[0] == 'EXC' else 'wrong-result'}", rc,
+                             [want[0], want[1].hex()], repr(r)[:160])
+                return
+        st.outcome("threads exact")
+
+    if "schedule" in case:
+        on_exec(*vsched.replay(harness, case, line_root=root, after_calls=True))
+        return
+    stats = vsched.explore_schedules(harness, case["P"], on_exec=on_exec, line_root=root, after_calls=True)
+    st.states += stats["executions"]
+    st.count("thread_schedules", stats["executions"])
+
+
 def run_case(case, st):
     part = case["part"]
+    if part == "threads":
+        return run_threads(case, st)
     if part == "history":
         return _history(case, st)
     if part == "int-values":
